@@ -1741,13 +1741,18 @@ sf_read_raw		(SNDFILE *sndfile, void *ptr, sf_count_t bytes)
 		return	0 ;
 		} ;
 
-	if (bytes < 0 || psf->read_current >= psf->sf.frames)
-	{	psf_memset (ptr, 0, bytes) ;
+	if (bytes < 0)
+	{	psf->error = SFE_NEGATIVE_RW_LEN ;
 		return 0 ;
 		} ;
 
 	if (bytes % (psf->sf.channels * bytewidth))
 	{	psf->error = SFE_BAD_READ_ALIGN ;
+		return 0 ;
+		} ;
+
+	if (psf->read_current >= psf->sf.frames)
+	{	psf_memset (ptr, 0, bytes) ;
 		return 0 ;
 		} ;
 
